@@ -103,7 +103,9 @@ def enc_tree(d):
 def enc_plain(v):
     if isinstance(v, bool): return ["b", v]
     if isinstance(v, int): return ["n", v]
+    if isinstance(v, float): return ["f", v]
     if isinstance(v, str): return ["s", v]
+    if v is None: return ["z"]
     return ["?", type(v).__name__]
 
 def snapshot(rule, pl):
